@@ -36,6 +36,9 @@ Lemma WF_set_ctx : forall o s, WF s -> WF (set_ctx o s). Proof. intro o. wf_triv
 Lemma WF_set_seq : forall o s, WF s -> WF (set_seq o s). Proof. intro o. wf_triv. Qed.
 Lemma WF_set_closed : forall o s, WF s -> WF (set_closed o s). Proof. intro o. wf_triv. Qed.
 Lemma WF_set_db : forall o s, WF s -> WF (set_db o s). Proof. intro o. wf_triv. Qed.
+Lemma WF_set_in_begin : forall o s, WF s -> WF (set_in_begin o s). Proof. intro o. wf_triv. Qed.
+Lemma WF_set_beginfail : forall o s, WF s -> WF (set_beginfail o s). Proof. intro o. wf_triv. Qed.
+Lemma WF_set_rbfail : forall o s, WF s -> WF (set_rbfail o s). Proof. intro o. wf_triv. Qed.
 Lemma WF_add_out : forall o s, WF s -> WF (add_out o s). Proof. intro o. wf_triv. Qed.
 Lemma WF_add_warn : forall s, WF s -> WF (add_warn s). Proof. wf_triv. Qed.
 Lemma WF_clear_log : forall s, WF s -> WF (clear_log s). Proof. wf_triv. Qed.
@@ -71,11 +74,22 @@ Qed.
 Lemma good_ctx_check : good ctx_check.
 Proof. intros s W. unfold ctx_check. destruct (c_ctx s); [destruct (active n s)|]; cbn; split; auto; discriminate. Qed.
 
+Lemma good_begin_listener : good begin_listener.
+Proof.
+  intros s W. unfold begin_listener. destruct (c_beginfail s) as [|[q|q|]]; cbn; split; auto;
+    try discriminate; try (apply WF_set_beginfail, W).
+Qed.
+Lemma good_begin_impl : good begin_impl.
+Proof.
+  apply good_bind; [apply good_pure; [discriminate|apply WF_set_in_begin]|].
+  apply good_finally; [apply good_bind; auto using good_begin_listener, good_emit|].
+  apply good_pure; [discriminate|apply WF_set_in_begin].
+Qed.
 Lemma good_new_root : good new_root.
 Proof.
   apply good_bind; [apply good_ctx_check|]. intros s W. destruct (c_closed s).
   - cbn. split; [auto|discriminate].
-  - apply good_bind; [apply good_emit| |exact W]. apply good_pure; [discriminate|].
+  - apply good_bind; [apply good_begin_impl| |exact W]. apply good_pure; [discriminate|].
     intros s1 W1. apply WF_set_root.
     apply (WF_push (mkT true true 0%N None false None) s1 W1). discriminate.
 Qed.
@@ -83,7 +97,10 @@ Qed.
 Lemma good_begin : good begin.
 Proof. intros s W. unfold begin. destruct (c_root s); [cbn; split; [auto|discriminate]|apply good_new_root, W]. Qed.
 Lemma good_autobegin : good autobegin_if_none.
-Proof. intros s W. unfold autobegin_if_none. destruct (c_root s); [apply good_ok, W|apply good_begin, W]. Qed.
+Proof.
+  intros s W. unfold autobegin_if_none. destruct (c_root s); [apply good_ok, W|].
+  destruct (c_in_begin s); [apply good_ok, W|apply good_begin, W].
+Qed.
 
 Lemma good_exec_guard : good exec_guard.
 Proof.
@@ -154,7 +171,12 @@ Proof.
 Qed.
 
 Lemma good_rollback_impl : good rollback_impl.
-Proof. intros s W. unfold rollback_impl. destruct (c_closed s); [apply good_ok, W|apply good_emit, W]. Qed.
+Proof.
+  intros s W. unfold rollback_impl. destruct (c_closed s); [apply good_ok, W|].
+  destruct (c_rbfail s); [|apply good_emit, W].
+  apply good_bind; [apply good_emit| |apply WF_set_rbfail, W].
+  intros s1 W1. cbn. split; [auto|discriminate].
+Qed.
 
 Lemma good_if : forall (b : st -> bool) m1 m2, good m1 -> good m2 -> good (fun s => if b s then m1 s else m2 s).
 Proof. intros b m1 m2 H1 H2 s W. destruct (b s); auto. Qed.
@@ -236,6 +258,8 @@ Proof.
   - apply good_bind.
     + intros s W. destruct (c_root s); [apply good_t_close|apply good_ok]; exact W.
     + apply good_pure; [discriminate|apply WF_set_closed].
+  - apply good_pure; [discriminate|apply WF_set_beginfail].
+  - apply good_pure; [discriminate|apply WF_set_rbfail].
 Qed.
 
 Lemma WF_init : forall d, WF (init d).
@@ -383,3 +407,205 @@ Lemma inactive_quiet : forall o k s, handle_of o = Some k -> active k s = false 
   (forall j, o <> TEnter j) ->
   s_out (step_st o s) = [] /\ s_db (step_st o s) = s_db s.
 Proof. intros o k s H1 H2 H3. destruct (inactive_sends_nothing o k s H1 H2 H3) as (A & B & _). auto. Qed.
+
+(* ---- the autobegin invariant: __in_begin is False whenever no _begin_impl frame is active, i.e.
+   after every operation of every history (raising `begin` listeners and failing rollbacks included);
+   so _autobegin is never disabled ---- *)
+Definition NB (s : st) : Prop := c_in_begin s = false.
+Definition nb (m : M) : Prop := forall s, NB s -> NB (snd (m s)).
+
+Lemma nb_bind : forall m k, nb m -> nb k -> nb (bind m k).
+Proof. intros m k Hm Hk s H. unfold bind. specialize (Hm s H). destruct (m s) as [[| e |] s1]; cbn in *; auto. Qed.
+Lemma nb_finally : forall m k, nb m -> nb k -> nb (finally m k).
+Proof.
+  intros m k Hm Hk s H. unfold finally. specialize (Hm s H). destruct (m s) as [r s1]; cbn in *.
+  specialize (Hk s1 Hm). destruct (k s1) as [[| e |] s2]; cbn in *; auto.
+Qed.
+Lemma nb_pure : forall (f : st -> st) r, (forall s, c_in_begin (f s) = c_in_begin s) -> nb (fun s => (r, f s)).
+Proof. intros f r H s Hs. unfold NB in *. cbn. rewrite H. auto. Qed.
+Lemma nb_ok : nb (fun s => (Ok, s)). Proof. intros s H. auto. Qed.
+Lemma nb_if : forall (b : st -> bool) m1 m2, nb m1 -> nb m2 -> nb (fun s => if b s then m1 s else m2 s).
+Proof. intros b m1 m2 H1 H2 s H. destruct (b s); auto. Qed.
+Lemma nb_raise : forall e, nb (fun s => (Raise e, s)). Proof. intros e s H. auto. Qed.
+
+Lemma nb_emit : forall c, nb (emit c).
+Proof. intros c s H. unfold emit. destruct (exec_cmd (s_db s) c); exact H. Qed.
+Lemma nb_warn : nb warn. Proof. intros s H. exact H. Qed.
+Lemma nb_ctx_check : nb ctx_check.
+Proof. intros s H. unfold ctx_check. destruct (c_ctx s); [destruct (active n s)|]; exact H. Qed.
+
+(* _begin_impl restores the flag on every exit path - this is where fix ba42825 matters *)
+Lemma begin_impl_resets : forall s, c_in_begin (snd (begin_impl s)) = false.
+Proof.
+  intros s. unfold begin_impl, bind, finally, begin_listener, emit. cbn [exec_cmd].
+  destruct (c_beginfail (set_in_begin true s)) as [|[q|q|]]; reflexivity.
+Qed.
+Lemma nb_new_root : nb new_root.
+Proof.
+  apply nb_bind; [apply nb_ctx_check|]. intros s H. destruct (c_closed s); [exact H|].
+  unfold bind. pose proof (begin_impl_resets s) as B. destruct (begin_impl s) as [[| e |] s1]; cbn in *; auto.
+Qed.
+Lemma nb_begin : nb begin.
+Proof. intros s H. unfold begin. destruct (c_root s); [exact H|apply nb_new_root, H]. Qed.
+Lemma nb_autobegin : nb autobegin_if_none.
+Proof.
+  intros s H. unfold autobegin_if_none. destruct (c_root s); [exact H|].
+  destruct (c_in_begin s); [exact H|apply nb_begin, H].
+Qed.
+Lemma nb_exec_guard : nb exec_guard.
+Proof.
+  intros s H. unfold exec_guard. destruct (c_closed s); [exact H|]. destruct (_ || _); [exact H|].
+  apply nb_bind; auto using nb_ctx_check, nb_autobegin.
+Qed.
+Lemma nb_sql : forall c, nb (sql c). Proof. intros. apply nb_bind; auto using nb_exec_guard, nb_emit. Qed.
+Lemma nb_ins : forall v, nb (ins v).
+Proof. intros. apply nb_bind; [apply nb_exec_guard|]. apply nb_pure. reflexivity. Qed.
+Lemma nb_new_nested : nb new_nested.
+Proof.
+  apply nb_bind; [apply nb_ctx_check|]. intros s H. apply nb_bind; [| |exact H].
+  - intros s1 H1. apply nb_sql. exact H1.
+  - apply nb_pure. reflexivity.
+Qed.
+Lemma nb_begin_nested : nb begin_nested.
+Proof. apply nb_bind; auto using nb_autobegin, nb_new_nested. Qed.
+Lemma nb_deact_root : forall k, nb (deact_root k).
+Proof. intros k s H. unfold deact_root, warn. destruct (active k s); [|destruct (opt_is _ _)]; exact H. Qed.
+Lemma nb_deact_nested : forall k w, nb (deact_nested k w).
+Proof. intros k w s H. unfold deact_nested, warn. destruct (opt_is _ _); [|destruct w]; exact H. Qed.
+Lemma nb_cancel : forall fuel k, nb (cancel fuel k).
+Proof.
+  induction fuel; intros k; [apply (nb_pure (fun s => s)); reflexivity|]. cbn [cancel].
+  apply nb_bind; [apply nb_pure; reflexivity|]. apply nb_bind; [apply nb_deact_nested|].
+  intros s H. destruct (prev k s); [apply IHfuel, H|exact H].
+Qed.
+Lemma nb_cancel_nested : nb cancel_nested.
+Proof. intros s H. unfold cancel_nested. destruct (c_nested s); [apply nb_cancel, H|exact H]. Qed.
+Lemma nb_rollback_impl : nb rollback_impl.
+Proof.
+  intros s H. unfold rollback_impl. destruct (c_closed s); [exact H|]. destruct (c_rbfail s); [|apply nb_emit, H].
+  apply nb_bind; [apply nb_emit|apply nb_raise|exact H].
+Qed.
+Lemma nb_root_close_impl : forall k t, nb (root_close_impl k t).
+Proof.
+  intros. apply nb_finally.
+  - apply nb_bind; [|apply nb_cancel_nested]. apply (nb_if (fun s => active k s)); auto using nb_rollback_impl, nb_ok.
+  - apply nb_bind.
+    + apply (nb_if (fun s => active k s || t)); auto using nb_deact_root, nb_ok.
+    + apply (nb_if (fun s => opt_is (c_root s) k) (fun s => (Ok, set_root None s))); [|apply nb_ok].
+      apply nb_pure. reflexivity.
+Qed.
+Lemma nb_root_do_commit : forall k, nb (root_do_commit k).
+Proof.
+  intros k s H. unfold root_do_commit. destruct (active k s).
+  - apply nb_bind; [| |exact H].
+    + apply nb_finally; [apply nb_emit|]. apply nb_bind; auto using nb_cancel_nested, nb_deact_root.
+    + apply nb_pure. reflexivity.
+  - destruct (opt_is _ _); exact H.
+Qed.
+Lemma nb_set_inactive : forall k, nb (fun s => (Ok, set_active k false s)).
+Proof. intros. apply nb_pure. reflexivity. Qed.
+Lemma nb_nested_close_impl : forall k w, nb (nested_close_impl k w).
+Proof.
+  intros. apply nb_finally.
+  - intros s H. destruct (_ && _); [|exact H]. destruct (c_closed s); [exact H|apply nb_sql, H].
+  - apply nb_bind; auto using nb_set_inactive, nb_deact_nested.
+Qed.
+Lemma nb_nested_do_commit : forall k, nb (nested_do_commit k).
+Proof.
+  intros k s H. unfold nested_do_commit. destruct (active k s).
+  - apply nb_bind; [| |exact H].
+    + apply nb_finally; auto using nb_sql, nb_set_inactive.
+    + apply nb_deact_nested.
+  - destruct (opt_is _ _); exact H.
+Qed.
+Lemma nb_t_commit : forall k, nb (t_commit k).
+Proof. intros k s H. unfold t_commit. destruct (is_root k s); [apply nb_root_do_commit|apply nb_nested_do_commit]; exact H. Qed.
+Lemma nb_t_rollback : forall k, nb (t_rollback k).
+Proof. intros k s H. unfold t_rollback. destruct (is_root k s); [apply nb_root_close_impl|apply nb_nested_close_impl]; exact H. Qed.
+Lemma nb_t_close : forall k, nb (t_close k).
+Proof. intros k s H. unfold t_close. destruct (is_root k s); [apply nb_root_close_impl|apply nb_nested_close_impl]; exact H. Qed.
+Lemma nb_t_exit : forall k e, nb (t_exit k e).
+Proof.
+  intros k e s H. unfold t_exit.
+  set (fin := fun s1 : st => (Ok, upd_txn k (set_ctx_t false None)
+     (if negb (subject k s) || negb (opt_is (c_ctx s) k) then s1 else set_ctx (outer k s1) s1))).
+  assert (Gf : nb fin).
+  { intros s1 H1. unfold NB in *. cbn. destruct (_ || _); exact H1. }
+  destruct (_ && _).
+  - apply nb_finally; [|exact Gf|exact H]. intros s1 H1.
+    pose proof (nb_t_commit k s1 H1) as H2.
+    destruct (t_commit k s1) as [[| x |] s2]; cbn in *; auto.
+    pose proof (nb_t_rollback k s2 H2) as H3.
+    destruct (t_rollback k s2) as [[| y |] s3]; cbn in *; auto.
+  - apply nb_finally; [|exact Gf|exact H]. intros s1 H1.
+    destruct (negb (active k s1)); [|apply nb_t_rollback, H1].
+    destruct (installed k s1); [exact H1|apply nb_t_close, H1].
+Qed.
+Lemma nb_run_op : forall o, nb (run_op o).
+Proof.
+  destruct o; cbn [run_op]; auto using nb_begin, nb_begin_nested, nb_ins, nb_t_commit, nb_t_rollback,
+    nb_t_close, nb_t_exit.
+  - intros s H. unfold conn_commit. destruct (c_root s); [apply nb_t_commit|]; exact H.
+  - intros s H. unfold conn_rollback. destruct (c_root s); [apply nb_t_rollback|]; exact H.
+  - apply nb_bind.
+    + intros s H. destruct (c_root s); [apply nb_t_close|]; exact H.
+    + apply nb_pure. reflexivity.
+  - apply nb_pure. reflexivity.
+  - apply nb_pure. reflexivity.
+  - apply nb_pure. reflexivity.
+Qed.
+
+Lemma step_nb : forall o s, NB s -> NB (step_st o s).
+Proof.
+  intros o s H. unfold step_st, step.
+  pose proof (nb_run_op o (clear_log s) H) as H1.
+  destruct (handle_of o); [destruct (_ <? _)|]; try exact H;
+    destruct (run_op o (clear_log s)); exact H1.
+Qed.
+
+Theorem in_begin_reset : forall ops s, NB s -> Forall (fun rs => c_in_begin (snd rs) = false) (trace ops s).
+Proof.
+  induction ops; intros s H; cbn; constructor.
+  - apply step_nb, H.
+  - apply IHops, step_nb, H.
+Qed.
+
+(* consequence: in every reachable state a statement on an open connection without a transaction
+   autobegins (it is never silently executed outside a Transaction) *)
+Lemma autobegin_runs : forall s, NB s -> c_root s = None -> autobegin_if_none s = begin s.
+Proof. intros s H Hr. unfold autobegin_if_none. rewrite Hr, H. reflexivity. Qed.
+
+(* a statement that executes does so inside an active root transaction (never "outside" one) *)
+Lemma exec_guard_in_transaction : forall s s', NB s -> exec_guard s = (Ok, s') -> in_transaction s' = true.
+Proof.
+  intros s s' H E. unfold exec_guard in E. destruct (c_closed s); [discriminate|].
+  destruct (inst_inactive (c_root s) s || inst_inactive (c_nested s) s) eqn:P; [discriminate|].
+  apply orb_false_elim in P. destruct P as [P _].
+  unfold bind, ctx_check in E.
+  assert (E' : autobegin_if_none s = (Ok, s')).
+  { destruct (c_ctx s); [destruct (active n s)|]; try discriminate; exact E. }
+  clear E. unfold autobegin_if_none in E'. unfold in_transaction.
+  destruct (c_root s) as [r|] eqn:Hr.
+  - inversion E'; subst. rewrite Hr. cbn in *. apply negb_false_iff in P. exact P.
+  - rewrite H in E'. unfold begin in E'. rewrite Hr in E'. unfold new_root, bind in E'.
+    destruct (ctx_check s) as [[| e |] s1]; try discriminate.
+    destruct (c_closed s1); [discriminate|].
+    destruct (begin_impl s1) as [[| e |] s2]; try discriminate.
+    inversion E'; subst. autorewrite with st. cbn [inst_active]. autorewrite with st.
+    rewrite Nat.eqb_refl. reflexivity.
+Qed.
+
+Theorem statement_in_transaction : forall ops d v s',
+  step (OIns v) (run ops (init d)) = Some (Ok, s') -> in_transaction s' = true.
+Proof.
+  intros ops d v s' E. unfold step in E. cbn [handle_of run_op] in E. inversion E as [E1]. clear E.
+  assert (H : NB (clear_log (run ops (init d)))).
+  { unfold NB. autorewrite with st.
+    assert (G : forall l s, NB s -> NB (run l s)).
+    { induction l; intros; cbn; auto. apply IHl, step_nb. auto. }
+    apply G. reflexivity. }
+  unfold ins, bind in E1. destruct (exec_guard _) as [[| e |] s1] eqn:EG; try discriminate.
+  inversion E1; subst. pose proof (exec_guard_in_transaction _ _ H EG) as T.
+  unfold in_transaction in *. autorewrite with st. unfold inst_active in *.
+  destruct (c_root s1); [|discriminate]. autorewrite with st. exact T.
+Qed.
